@@ -464,7 +464,8 @@ func visitInstr(fr *frame, instr ssa.Instruction) continuation {
 		fr.i.noteKey(key)
 		switch m := m.(type) {
 		case map[value]value:
-			m[key] = v
+			k, _ := mapFindKey(m, key)
+			m[k] = v
 		case *hashmap:
 			m.insert(key.(hashable), v)
 		default:
